@@ -504,7 +504,7 @@ def own_public(d, c) -> list:
 def features(d) -> Dict[str, bool]:
     mapped = [c for c in d["classes"] if is_mapped_cls(c)]
     names = {c["name"] for c in mapped}
-    ft = {k: False for k in ("K_selfcoll", "K_nobuiltin", "K_fkalias", "K_reserved", "K_pkname", "K_discname", "K_casefold", "K_assocname", "K_inhfkalias")}
+    ft = {k: False for k in ("K_selfcoll", "K_nobuiltin", "K_fkalias", "K_reserved", "K_pkname", "K_discname", "K_casefold", "K_assocname", "K_inhfkalias", "K_inhrelalias")}
     has_child = {mapped_parent(d, c["name"]) for c in mapped}
     tnames = [(c["name"] + "DAO").lower() for c in mapped]
     any_builtin = False
@@ -542,6 +542,9 @@ def features(d) -> Dict[str, bool]:
         anc = [by[a] for a in chain(d, c["name"]) if is_mapped_cls(by[a])]
         if colnames(c) & set().union(*[colnames(a) for a in anc]) if anc else False:
             ft["K_inhfkalias"] = True
+        relnames = {f["name"] for a in anc for f in own_public(d, a) if f["ep"][0] == "c" and f["ep"][1] in names}
+        if colnames(c) & relnames:
+            ft["K_inhrelalias"] = True      # C06-p: a column / FK column named like a relationship of an ancestor
     low = [c["name"].lower() for c in mapped]
     ft["K_casefold"] = len(set(low)) != len(low)
     ft["K_nobuiltin"] = not any_builtin
@@ -797,7 +800,7 @@ def classify(impl, model, spec) -> int:
     return 2 if impl == model else 3
 
 
-KCLASS_ORDER = ["K_casefold"]   # the only open class inside the Coq grammar; a, c, d, e, f, h are repaired (c757abc, bd9b8e0), b (b804898), i (280300b)
+KCLASS_ORDER = ["K_casefold", "K_inhrelalias"]   # the only open class inside the Coq grammar; a, c, d, e, f, h are repaired (c757abc, bd9b8e0), b (b804898), i (280300b)
 
 
 MAX_REPLAYS = 6
